@@ -320,3 +320,22 @@ package mapping
 //@   requires m != nil
 //@   call processAnonymousField#*: assert arg_m == m && field.Anonymous
 //@   call processNamedField#*: assert arg_m == m && !field.Anonymous
+
+// C17: the YAML and TOML entry points are the JSON entry point applied to the converted document, with the caller's
+// options handed on unchanged (so an option means the same in all three formats)
+//@ func UnmarshalTomlBytes
+//@   property C17
+//@   ghost at after TomlToJson#0: conv = ret0
+//@   call UnmarshalJsonBytes#0: assert sameSlice(arg_content, conv) && arg_v == v && sameSlice(arg_opts, opts)
+//@ func UnmarshalYamlBytes
+//@   property C17
+//@   ghost at after YamlToJson#0: conv = ret0
+//@   call UnmarshalJsonBytes#0: assert sameSlice(arg_content, conv) && arg_v == v && sameSlice(arg_opts, opts)
+//@ func UnmarshalTomlReader
+//@   property C17
+//@   ghost at after ReadAll#0: rd = ret0
+//@   call UnmarshalTomlBytes#0: assert sameSlice(arg_content, rd) && arg_v == v && sameSlice(arg_opts, opts)
+//@ func UnmarshalYamlReader
+//@   property C17
+//@   ghost at after ReadAll#0: rd = ret0
+//@   call UnmarshalYamlBytes#0: assert sameSlice(arg_content, rd) && arg_v == v && sameSlice(arg_opts, opts)
